@@ -18,4 +18,5 @@ import (
 	_ "verif/c14"
 	_ "verif/c15"
 	_ "verif/c16"
+	_ "verif/c17"
 )
